@@ -147,7 +147,51 @@ func (g *wildGen) lambda() string {
 	g.inFn++
 	body := g.block(1 + g.r.Intn(3))
 	g.inFn--
+	if g.loops > 0 && g.r.Chance(1, 3) {
+		// loop control inside a function literal that sits inside a loop
+		body = core.Pick(g.r, []string{"{ break }", "{ continue }", "{ if " + g.name() + " { break } }", "{ for { break }; continue }", "{ switch { default: break }; break }"})
+	}
 	return "func(" + params + ")" + ret + " " + body
+}
+
+// GenCycle returns a program that builds a self-referential value and renders it.
+func GenCycle(r *core.PRNG) string {
+	elem := core.Pick(r, []string{"any", "any", "[]any", "*N", "map[string]any"})
+	var b []string
+	b = append(b, "type N struct { V any; Next *N; Kids []*N; M map[string]*N }")
+	v := "c"
+	switch r.Intn(6) {
+	case 0:
+		b = append(b, fmt.Sprintf("c := []%s{nil, nil, nil}", elem), fmt.Sprintf("c[%d] = c", r.Intn(3)))
+	case 1:
+		b = append(b, "c := []any{1, \"two\", nil}", "d := []any{c}", "c[2] = d")
+	case 2:
+		b = append(b, fmt.Sprintf("c := map[string]%s{}", elem), "c[\"self\"] = c")
+	case 3:
+		b = append(b, "c := &N{V: 1}", "c.Next = c")
+	case 4:
+		b = append(b, "c := &N{}", "c.Kids = []*N{c, c}", "c.M = map[string]*N{\"me\": c}", "c.V = c.Kids")
+	default:
+		b = append(b, "c := []any{nil}", "m := map[string]any{\"c\": c}", "n := &N{V: m}", "c[0] = n")
+		v = core.Pick(r, []string{"c", "m", "n"})
+	}
+	switch r.Intn(7) {
+	case 0:
+		b = append(b, "println("+v+")")
+	case 1:
+		b = append(b, "import \"fmt\"", "fmt.Println("+v+", "+v+")")
+	case 2:
+		b = append(b, "import \"fmt\"", "s := fmt.Sprint("+v+")", "s")
+	case 3:
+		b = append(b, "import \"fmt\"", "s := fmt.Sprintf(\"%v|%d|%s\", "+v+", "+v+", "+v+")", "len(s)")
+	case 4:
+		b = append(b, "panic("+v+")")
+	case 5:
+		b = append(b, v) // returned to the host, which renders it with String()
+	default:
+		b = append(b, "print("+v+", "+v+")")
+	}
+	return strings.Join(b, "; ")
 }
 
 func (g *wildGen) block(n int) string {
@@ -186,7 +230,7 @@ func (g *wildGen) stmt() string {
 	if g.depth > 5 {
 		return g.name() + " = " + g.lit()
 	}
-	switch g.r.Intn(30) {
+	switch g.r.Intn(31) {
 	case 0, 1:
 		return g.newName() + " := " + g.expr()
 	case 2:
@@ -261,6 +305,10 @@ func (g *wildGen) stmt() string {
 		return g.newName() + " := " + g.composite()
 	case 27:
 		return g.name() + "(" + g.exprs(g.r.Intn(3)) + ")"
+	case 28:
+		return "hook = " + g.lambda()
+	case 29:
+		return core.Pick(g.r, []string{"hook()", "x := hook()", "hook(1)"})
 	}
 	return g.newName() + ", " + g.newName() + " := " + g.expr() + ", " + g.expr()
 }
